@@ -462,7 +462,6 @@ func c04Store(rc *RuleCtx) {
 	}
 }
 
-
 // walkThroughHelper: helper g calls the walk exactly once on every path that returns; the walk's path argument is one of
 // g's parameters and its mode argument evaluates to one constant when g's parameters are bound to the constant
 // arguments of the call `at`. Returns the caller's path argument and the mode constant.
